@@ -51,8 +51,8 @@ Theorem C09_translation_fourier : forall FX FY a sg xc yc t q da db,
 Proof. exact fourier_translate. Qed.
 
 (* ---- angles congruent modulo pi describe the same kernel (posterior wrap of C19) ---- *)
-Theorem C09_theta_mod_pi : forall X Y xc yc f r n e t (k : nat),
-  sersic2d_zsq X Y xc yc f r n e (t + INR k * PI) = sersic2d_zsq X Y xc yc f r n e t.
+Theorem C09_theta_mod_pi : forall X Y xc yc r e t (k : nat),
+  sersic2d_zsq X Y xc yc r e (t + INR k * PI) = sersic2d_zsq X Y xc yc r e t.
 Proof. exact zsq_theta_kpi. Qed.
 
 Print Assumptions C09_theta_pi.
